@@ -234,10 +234,35 @@ func ruleSemantic(c *Ctx) {
 				tokCall = call
 			}
 		}
-		fromDoc := tokCall != nil && sliceHasCall(backSlice(tokCall.Common().Args[0]), func(cal *ssa.Function, _ *ssa.Call) bool { return calleeNameIs(cal, "server.Server).GetDocument") })
+		// the tokenizer is given the document text itself - not a part or a transformation of it: the tokenizer
+		// carries state from line to line, so tokens of a fragment are not the fragment of the tokens
+		var exactDoc func(v ssa.Value, seen map[ssa.Value]bool) bool
+		exactDoc = func(v ssa.Value, seen map[ssa.Value]bool) bool {
+			if seen[v] {
+				return true
+			}
+			seen[v] = true
+			switch x := stripConv(v).(type) {
+			case *ssa.Extract:
+				if call, ok := x.Tuple.(*ssa.Call); ok && x.Index == 0 {
+					if cal := call.Common().StaticCallee(); cal != nil && calleeNameIs(cal, "server.Server).GetDocument") {
+						return true
+					}
+				}
+			case *ssa.Phi:
+				for _, e := range x.Edges {
+					if !exactDoc(e, seen) {
+						return false
+					}
+				}
+				return true
+			}
+			return false
+		}
+		fromDoc := tokCall != nil && exactDoc(tokCall.Common().Args[0], map[ssa.Value]bool{})
 		c.check(tok && fromDoc, "T12", fname, kind+": tokens of the current document text", enc.Pos(),
-			"encodes the tokenizer's output for the text obtained from the document store in this request",
-			"the encoded token list is not the tokenizer's output for the current document text (e.g. served from a cache that is not invalidated on change)")
+			"encodes the tokenizer's output for the whole text obtained from the document store in this request",
+			"the encoded token list is not the tokenizer's output for the whole current document text (a part or transformation of the text is tokenised, or the list is served from a cache that is not invalidated on change)")
 		if kind == "range" {
 			// restricted by the filter only, and no cache access at all
 			cacheUse := findCalls(f, isCacheMethod)
